@@ -111,9 +111,9 @@ class PyTables:
         self.allowed_node = {}
         for nm in ("ALLOWED_I_SPECS_L0", "ALLOWED_I_SPECS_L1", "ALLOWED_J_SPECS", "ALLOWED_K_SPECS"):
             v, node = tc.py_table(tree, SETTINGS, nm)
-            if not isinstance(v, list) or not all(isinstance(x, str) for x in v):
+            if not isinstance(v, (list, tuple, set)) or not all(isinstance(x, str) for x in v):
                 raise core.AnalysisError("%s is no longer a list of strings" % nm)
-            self.allowed[nm], self.allowed_node[nm] = v, node
+            self.allowed[nm], self.allowed_node[nm] = sorted(v) if isinstance(v, set) else list(v), node
         self.usps, self.usps_node = tc.py_table(tree, SETTINGS, "SPEC_USPS")
         for nm, t in (("VJ_ID_MAP", self.vj), ("VI_ID_MAP", self.vi), ("IFEAT_ID_TO_CONTRIB", self.ifeat),
                       ("SPEC_USPS", self.usps)):
@@ -129,6 +129,17 @@ class PyTables:
     def list_loc(self, name, spec):
         node = self.allowed_node[name]
         return (SETTINGS, name, "%s contains %r" % (name, spec), getattr(node, "lineno", 0))
+
+
+def _lib_func(v):
+    """libcider.<name> or getattr(libcider, "<name>") -> name"""
+    if isinstance(v, ast.Attribute) and isinstance(v.value, ast.Name) and v.value.id.startswith("lib") and v.value.id != "lib":
+        return v.attr
+    if isinstance(v, ast.Call) and pf.call_name(v) == "getattr" and len(v.args) >= 2 and isinstance(v.args[0], ast.Name) \
+            and v.args[0].id.startswith("lib") and v.args[0].id != "lib" \
+            and isinstance(v.args[1], ast.Constant) and isinstance(v.args[1].value, str):
+        return v.args[1].value
+    return None
 
 
 def j_call_site(tree):
@@ -147,19 +158,23 @@ def j_call_site(tree):
             continue
         cfuncs, fnvars = set(), set()
         for n in pf.walk_no_nested(fn):
-            if isinstance(n, ast.Assign) and len(n.targets) == 1 and isinstance(n.targets[0], ast.Name) \
-                    and isinstance(n.value, ast.Attribute) and pf.src(n.value.value) == "libcider":
-                cfuncs.add(n.value.attr)
-                fnvars.add(n.targets[0].id)
+            if isinstance(n, ast.Assign) and len(n.targets) == 1 and isinstance(n.targets[0], ast.Name):
+                for v in ([n.value.body, n.value.orelse] if isinstance(n.value, ast.IfExp) else [n.value]):
+                    cf = _lib_func(v)
+                    if cf:
+                        cfuncs.add(cf)
+                        fnvars.add(n.targets[0].id)
         pos = set()
         line = fn.lineno
         for n in pf.walk_no_nested(fn):
-            if isinstance(n, ast.Call) and ((isinstance(n.func, ast.Name) and n.func.id in fnvars) or (
-                    isinstance(n.func, ast.Attribute) and pf.src(n.func.value) == "libcider")):
-                if isinstance(n.func, ast.Attribute):
-                    cfuncs.add(n.func.attr)
+            if isinstance(n, ast.Call) and ((isinstance(n.func, ast.Name) and n.func.id in fnvars) or _lib_func(n.func)):
+                if _lib_func(n.func):
+                    cfuncs.add(_lib_func(n.func))
                 for i, a in enumerate(n.args):
-                    if isinstance(a, ast.Call) and pf.call_name(a) in ("ctypes.c_int", "c_int") and a.args \
+                    if isinstance(a, ast.Name) and a.id in idvars:
+                        pos.add(i)
+                        line = n.lineno
+                    if isinstance(a, ast.Call) and (pf.call_name(a) or "").split(".")[-1] in ("c_int", "c_int32", "int") and a.args \
                             and isinstance(a.args[0], ast.Name) and a.args[0].id in idvars:
                         pos.add(i)
                         line = n.lineno
@@ -177,34 +192,39 @@ def analyse_j_function(tu, fname, id_pos):
     ps = tu.params(fname)
     if len(ps) != 8:
         raise core.AnalysisError("%s no longer has 8 parameters" % fname)
-    ptypes = [p.get("type", {}).get("qualType", "") for p in ps]
+    ptypes = [tc.ptype(p) for p in ps]  # cv/restrict qualifiers are immaterial
     want = ["double *", "double *", "double *", "double *", "int", "int", "int", "double *"]
     if ptypes != want:
         raise core.AnalysisError("%s: parameter types changed: %s" % (fname, ptypes))
     names = ["P", "DP", "E", "A", "ngrids", "nalpha", "featid", "X"]
     roles = {p["id"]: r for p, r in zip(ps, names)}
     ev = tc.Ev(tu, {"E": ONE, "A": ONE})
+    ev.inline_calls = True  # a fill macro turned into a helper function is followed
     env = tc.new_env(roles)
     ev.block(tu.body(fname), env)
+    # the dispatch on the id parameter: a `switch` or an if/else-if chain on `id == k`
     sws = [s for s in ev.switch_results if s["var"].get("kind") == "DeclRefExpr"
            and s["var"]["referencedDecl"]["id"] == ps[id_pos]["id"]]
     if len(sws) != 1:
-        raise core.AnalysisError("%s: expected exactly one switch over parameter #%d (%s), found %d" % (
+        raise core.AnalysisError("%s: expected exactly one switch / if-ladder over parameter #%d (%s), found %d" % (
             fname, id_pos, ps[id_pos].get("name"), len(sws)))
     sw = sws[0]
-    txt = [s for s in tc.c_switch_text(tu, fname)]
-    if len(txt) != 1 or len(txt[0]["cases"]) != len(sw["groups"]):
-        raise core.AnalysisError("%s: the switch statement could not be matched with its source text" % fname)
+    # spelling of the labels and of the macros invoked per case (used to name the hop in reports); optional
+    txt = [s for s in tc.c_switch_text(tu, fname)] if sw.get("form") != "if" else []
+    tcases = txt[0]["cases"] if len(txt) == 1 and len(txt[0]["cases"]) == len(sw["groups"]) else None
     out = {}
     has_default = False
-    for g, t in zip(sw["groups"], txt[0]["cases"]):
+    for gi, g in enumerate(sw["groups"]):
+        t = tcases[gi] if tcases is not None else {"labels": [], "macros": []}
         if g["default"]:
             has_default = True
         labs = [x for x in t["labels"] if x is not None]
         if len(labs) != len(g["values"]):
-            raise core.AnalysisError("%s: case labels in text and AST disagree" % fname)
+            labs = ["%s" % v for v in g["values"]]
         for v, lab in zip(g["values"], labs):
             mv = tc.macro_int(tu, lab)
+            if mv is None:
+                mv = getattr(tu, "_enums", {}).get(lab)
             if mv is not None and mv != v:
                 raise core.AnalysisError("%s: label %s spelled value %s but clang folded it to %s" % (fname, lab, mv, v))
             fills = []
@@ -413,7 +433,7 @@ def rule_feat_orders_position(chk, ic, tu):
     if not drivers:
         raise core.AnalysisError("no caller of %s in %s" % (LADDER_FUNC, C_CONV))
     ps = tu.params(LADDER_FUNC)
-    int_pos = [i for i, p in enumerate(ps) if p.get("type", {}).get("qualType") == "int" and i != ic.id_param_index]
+    int_pos = [i for i, p in enumerate(ps) if tc.ptype(p) == "int" and i != ic.id_param_index]
     if len(int_pos) != 1:
         raise core.AnalysisError("%s: expected exactly one integer parameter besides the id (the output offset)" % LADDER_FUNC)
     off_pos = int_pos[0]
@@ -474,11 +494,13 @@ def rule_feat_orders_position(chk, ic, tu):
 class IChain:
     def __init__(self, chk, py, tu):
         self.tu = tu
-        lads = [l for l in tc.c_if_ladders(tu, LADDER_FUNC)
+        lads = [l for l in tc.c_dispatch_tables(tu, LADDER_FUNC)
                 if all(tc.single_assignment(a["stmt"]) and tc.func_ref(tc.single_assignment(a["stmt"])[1]) for a in l["arms"])]
         if len(lads) != 1:
-            raise core.AnalysisError("%s: expected one `if (id == k) fptr = &f` ladder, found %d" % (LADDER_FUNC, len(lads)))
+            raise core.AnalysisError("%s: expected one dispatch (`if (id == k) fptr = &f` ladder or switch), found %d" % (
+                LADDER_FUNC, len(lads)))
         lad = lads[0]
+        self.ladder_falls = lad["falls"]
         ps = tu.params(LADDER_FUNC)
         pn = [p.get("name") for p in ps]
         if lad["var"] not in pn:
@@ -494,7 +516,7 @@ class IChain:
                 if v in self.ladder:
                     raise core.AnalysisError("%s: id %s appears twice in the ladder" % (LADDER_FUNC, v))
                 self.ladder[v] = tc.func_ref(r)
-                self.ladder_loc[v] = (F_CONV, LADDER_FUNC, "if (%s == %s) %s = &%s" % (lad["var"], v, sorted(tgt)[0], tc.func_ref(r)),
+                self.ladder_loc[v] = (F_CONV, LADDER_FUNC, "%s == %s: %s = &%s" % (lad["var"], v, sorted(tgt)[0], tc.func_ref(r)),
                                       tu.line_of(a["node"]))
         if len(tgt) != 1:
             raise core.AnalysisError("%s: the ladder assigns different variables %s" % (LADDER_FUNC, sorted(tgt)))
@@ -513,7 +535,7 @@ class IChain:
         if not found:
             raise core.AnalysisError("no call of %s passes an element of icontrib_ids as the feature id" % LADDER_FUNC)
         # feat_orders ladder
-        ol = [l for l in tc.c_if_ladders(tu, ORDERS_FUNC) if "icontrib_ids" in l["var"]
+        ol = [l for l in tc.c_dispatch_tables(tu, ORDERS_FUNC) if "icontrib_ids" in l["var"]
               and all(tc.single_assignment(a["stmt"]) and tc.const_int(tc.single_assignment(a["stmt"])[1]) is not None
                       for a in l["arms"])]
         if len(ol) != 1:
@@ -528,8 +550,8 @@ class IChain:
             lhs.add(tc.norm_c(tu.text_of(l)))
             for v in a["values"]:
                 self.orders[v] = tc.const_int(r)
-                self.orders_loc[v] = (F_CONV, ORDERS_FUNC, "if (%s == %s) %s = %s" % (ol["var"], v, tc.norm_c(tu.text_of(l)),
-                                                                                      tc.const_int(r)), tu.line_of(a["node"]))
+                self.orders_loc[v] = (F_CONV, ORDERS_FUNC, "%s == %s: %s = %s" % (ol["var"], v, tc.norm_c(tu.text_of(l)),
+                                                                                  tc.const_int(r)), tu.line_of(a["node"]))
         # abstract evaluation of the constructor: struct fields, allocation of feat_orders, positions written
         self.producer = eval_int_flow(tu, ORDERS_FUNC, "p:")
         self.fo_stores = [st for st in self.producer[1]["stores"] if ".feat_orders@" in st["root"]]
@@ -567,7 +589,7 @@ class IChain:
     def value(self, fname):
         if fname not in self.values:
             ps = self.tu.params(fname)
-            types = [p.get("type", {}).get("qualType", "") for p in ps]
+            types = [tc.ptype(p) for p in ps]
             if types != ["int", "double", "double", "double"]:
                 raise core.AnalysisError("integral function %s has signature %s, expected (int, double, double, double)" % (
                     fname, types))
@@ -850,6 +872,10 @@ def rule_totality(chk, py, tus, per_fn, ic):
                     vio_at(chk, "totality", py.entry_loc(LCONV, "IFEAT_ID_TO_CONTRIB", py.ifeat_node, fid),
                            "contribution id %s (spec %r) has no `featid == %s` arm in %s: the C code prints "
                            "'Unsupported featid' and exits" % (c, s, c, LADDER_FUNC), inst)
+    for g in ic.ladder_falls:
+        chk.violation("totality", F_CONV, LADDER_FUNC, "case %s:" % g["values"], tus[C_CONV].line_of(g["node"]),
+                      "case %s of the feature-id switch falls through into the next case, which overwrites the integral "
+                      "function" % g["values"], instance="ladder case %s ends in break" % g["values"])
     # 3. version j/k: id has a case in both layouts, no fall-through
     for f, (cases, has_default, ev) in sorted(per_fn.items()):
         for lst in ("ALLOWED_J_SPECS", "ALLOWED_K_SPECS"):
@@ -1075,6 +1101,8 @@ def _analyse_own(chk):
     chk.rule("totality", "allowed specs have ids, USPs, contributions, C cases/arms, ueg branches")
     py = PyTables(chk.tree)
     tus = cfacts.load_all(chk.tree, [C_COEFS, C_CONV], jobs=2)
+    for tu_ in tus.values():
+        tc.load_enums(tu_, chk.tree)  # case labels may be spelled with enumerators instead of macros
     chk.count("C translation units", 2)
     state = {}
 
@@ -1094,13 +1122,13 @@ def _analyse_own(chk):
     chk.guard(_t)
     chk.guard(rule_ueg, py)
     chk.guard(rule_delegate_forward)
-    chk.floor("chain-j", 12, "4 j specs + 4 k specs (alias) x 2 layouts, minus nothing; 16 today")
-    chk.floor("chain-j-twin", 4, "4 case values")
-    chk.floor("chain-i", 10, "6 scalar specs + 2 vector specs x 2 parts")
-    chk.floor("feat-orders", 12, "9 contribution ids + 3 position stores + the j block")
-    chk.floor("alpha-degree", 12, "9 non-reference i integrals + 3x2 j coefficients")
-    chk.floor("delegate-forward", 15, "22 delegating calls with shared parameters in settings.py / plans.py")
-    chk.floor("totality", 40, "ids, usps, contributions, arms, cases, ueg branches")
+    chk.floor("chain-j", 8, "4 j specs + 4 k specs (alias) x 2 layouts, minus nothing; 16 today")
+    chk.floor("chain-j-twin", 2, "4 case values")
+    chk.floor("chain-i", 5, "6 scalar specs + 2 vector specs x 2 parts")
+    chk.floor("feat-orders", 6, "9 contribution ids + 3 position stores + the j block")
+    chk.floor("alpha-degree", 10, "9 non-reference i integrals + 3x2 j coefficients")
+    chk.floor("delegate-forward", 8, "22 delegating calls with shared parameters in settings.py / plans.py")
+    chk.floor("totality", 45, "ids, usps, contributions, arms, cases, ueg branches")
     chk.extra["reference"] = {"design_endpoints": {k: v for k, v in DESIGN_ENDPOINTS.items()},
                               "localisation_snapshot": {k: {str(a): b for a, b in v.items()} for k, v in SNAP.items()},
                               "j_moments": {"se_ar2": "3/2 * E/(E+A)", "se_a2r4": "15/4 * E^2/(E+A)^2",
